@@ -49,6 +49,23 @@ pub fn cell_case(out: &mut Out, rng: &mut Rng, depth: u8, h: u64, tag: &str) {
     out.rec(&format!("vertex {} {} {}", depth, h, k), &pair(&v));
     match v { Some(v) => if ang(v, vs[k]) > 1e-13 { out.violation("C03:vertex-vs-vertices", format!("{} vertex={}", inp, k), format!("{:?}", vs[k]), format!("{:?}", v)); }, None => out.violation("C03:vertex:panic", inp.clone(), "vertex".into(), "panic".into()) }
   }
+  // ... also through `vertices_map`, for every subset of the four directions (16 sets): exactly the requested keys,
+  // each with the vertex of ITS direction
+  for mask in 0..16u32 {
+    if !(tag == "exhaustive" || mask == 15 || (h + mask as u64) % 5 == 0) { continue; }
+    let m = catch(|| { let mut set = cdshealpix::compass_point::CardinalSet::new(); for k in 0..4 { if (mask >> k) & 1 == 1 { set.set(card(k), true); } }
+      let map = l.vertices_map(h, set); (0..4).map(|k| map.get(card(k)).cloned()).collect::<Vec<Option<(f64, f64)>>>() });
+    out.rec(&format!("vmap {} {} {}", depth, h, mask), &match &m { None => "panic".into(), Some(v) => v.iter().map(|o| match o { Some((a, b)) => format!("{} {}", fbits(*a), fbits(*b)), None => "-".into() }).collect::<Vec<_>>().join(" ; ") });
+    out.stat("C03:vertices_map");
+    match m {
+      None => out.violation("C03:vertices_map:panic", format!("{} set={:04b}", inp, mask), "a map".into(), "panic".into()),
+      Some(v) => for k in 0..4 {
+        let want = if (mask >> k) & 1 == 1 { Some(vs[k]) } else { None };
+        let ok = match (v[k], want) { (None, None) => true, (Some(a), Some(b)) => ang(a, b) <= 1e-13, _ => false };
+        if !ok { out.violation("C03:vertices_map", format!("{} set={:04b} direction={}", inp, mask, k), format!("{:?}", want), format!("{:?}", v[k])); break; }
+      }
+    }
+  }
   // interior offsets hash back, sph_coo inverts hash_with_dxdy
   let offs = [0.5, 0.25, 0.75, 1e-6, 0.999999, 0.125, 0.875];
   for _ in 0..3 {
